@@ -23,7 +23,7 @@ RULE = ("Grid (complete): initial store {old absent/present/active} x {new absen
         "silence / close / reset, applied and answered later than the read timeout, applied and the reply cut at a drawn byte followed by close / silence / reset}, plus quota refusal of the copy, x 8 body shapes (CRLF, LF, mixed, no final newline, "
         "blank lines, multi-byte, empty, Unicode/VT/FF separators inside lines); double faults (quota refusal or forced NO at "
         "PUTSCRIPT/SETACTIVE/DELETESCRIPT followed by a second fault of any kind at the next occurrence of any step); a short "
-        "history on the same client before the rename (listing, change of the active script; a listing that is out of date by the time of the call because another session added / removed the target or removed the source); names with a twin that differs only "
+        "history on the same client before the rename (listing, change of the active script; a listing that is out of date by the time of the call because another session added / removed the target or removed the source; an earlier attempt at the same rename stopped after its upload, the target then replaced by another session); names with a twin that differs only "
         "by Unicode normalisation, case or quoting; native RENAMESCRIPT is run on the same states as the control. Then random stores, "
         "names, bodies, fault placements and recv segmentation. Non-trivial: a fault fired or the target existed. "
         "Distinct = grid cells (state, fault, body) / (state class, fault, outcome) for random runs.")
@@ -107,7 +107,7 @@ def all_cells():
     # a short history on the same client before the rename (listing, then a change of the active script)
     for si in range(len(st)):
         for bi in (0, 3):
-            for ph in (1, 2, 3, 5, 6):
+            for ph in (1, 2, 3, 5, 6, 7):
                 cells.append((si, ["h", ph], bi, 0))
     # an earlier command on the same connection was refused with NO (NONEXISTENT) (stale errcode / errmsg), then one fault
     pl = placements()
@@ -242,7 +242,7 @@ def run(ch, config, res):
                 dp = double_placements()
                 pi = 1000 + wl.int("dplacement", len(dp))
                 placement = dp[pi - 1000]
-            prehist = wl.int("prehist", 7)
+            prehist = wl.int("prehist", 8)
             names = wl.weighted("names", [3] + [1] * (len(NAME_VARIANTS) - 1))
             body = gen.body(wl, "body", hostile=False) if wl.flag("plainbody", 1, 2) else BODIES[wl.int("body", len(BODIES))]
     double = placement is not None and placement[0] == "double"
@@ -262,7 +262,12 @@ def run(ch, config, res):
 
     stage = [0]
 
+    pre_fault = [None]
+
     def fault_hook(conn, dec, scope):
+        if pre_fault[0] is not None and not isinstance(dec, str) and dec.verb == pre_fault[0]:
+            pre_fault[0] = None
+            return F_NO
         if placement is None or isinstance(dec, str) or not armed[0]:
             return None
         if double:
@@ -318,6 +323,16 @@ def run(ch, config, res):
                         world.call(client, "getscript", oldn)
                         world.call(client, "listscripts")
                         world.call(client, "setactive", "")
+                    if prehist == 7 and newn != oldn:
+                        # an earlier attempt at the very same rename by this client was stopped after its upload (the final
+                        # DELETESCRIPT was refused); since then another session has put a script of its own under the
+                        # target name
+                        pre_fault[0] = b"DELETESCRIPT"
+                        world.call(client, "renamescript", oldn, newn)
+                        pre_fault[0] = None
+                        nb = newn.encode("utf-8")
+                        if nb in srv.scripts and srv.active != nb:
+                            srv.scripts[nb] = b"# put there by another session\r\nredirect \"o@example.org\";\r\n"
                     if prehist in (5, 6):
                         # what the client saw in its own listing is out of date by the time of the rename: meanwhile
                         # (another session, before the call) the target appeared / disappeared (5) or the source went away (6)
